@@ -246,6 +246,11 @@ DetailedBalance == (Done /\ HasPi /\ (builder = "transpose" \/ Reversible)) =>
 RingNotReversible == (Done /\ HasPi /\ builder = "normalize" /\ fam \in {"ring", "prod"} /\ n >= 3) =>
    \E i \in Idx : \E j \in DOMAIN T[i] : X(i) * TNum(i, j) # X(j) * TNum(j, i)
 
+(* On the reversible families the row-normalised model satisfies detailed balance (above), so it is also the
+   likelihood maximiser among the reversible models (the unconstrained maximiser is feasible, and unique on an
+   irreducible support): builders.mle has to return normalize's T and pi for these counts *)
+MLEIsNormalize == Reversible /\ builder = "normalize" /\ prior = 0
+
 (* transpose returns (C + C.T) / 2 as counts *)
 SymmetrisedCounts == (Done /\ builder = "transpose") =>
    /\ bg = 2 * prior
@@ -260,5 +265,6 @@ Safe == Done => \A i \in Idx : rs[i] < 100000000 /\ pi[i][2] < 1000000000
 EmitInv == (Emit /\ Done /\ wtag = (IF prior # 0 THEN "dense" ELSE tag)) =>
   PrintT(<<"CASE", ToJson([n |-> n, fam |-> fam, pat |-> pat, builder |-> builder, prior |-> prior,
                            C |-> C, W |-> W, bg |-> bg, half |-> (builder = "transpose"),
-                           T |-> T, Tbg |-> Tbg, pi |-> pi, reversible |-> Reversible])>>)
+                           T |-> T, Tbg |-> Tbg, pi |-> pi, reversible |-> Reversible,
+                           mle_same |-> MLEIsNormalize])>>)
 =============================================================================
